@@ -8,3 +8,5 @@ def build(ctx):
     FH.jobs(ctx)
     from . import fockgates as FG
     FG.jobs(ctx)
+    from . import dispatch as DP
+    DP.jobs(ctx)
